@@ -42,16 +42,86 @@ theorem runThread_spec (t : Tid) : ∀ (fuel : Nat) (s : State) (it : Iter), Sol
         it', e1, e2, e3.trans hq1⟩
 
 /-- all threads are outside the critical section (the state of a rule object between calls) -/
-def Parked (s : State) : Prop := ∀ (t : Tid) (it : Iter), s.its[t]? = some it → it.pc.inCrit = false
+def ParkedAll (s : State) : Prop := ∀ (t : Tid) (it : Iter), s.its[t]? = some it → it.pc.inCrit = false
+
+/-- … of an object whose generator ends by StopIteration (the sets of C10's history machine: finite member lists) -/
+def Parked (s : State) : Prop := ParkedAll s ∧ s.sh.endErr = none
+
+/-! ### how the generator ends is a parameter: no statement changes it -/
+
+theorem step_endErr {s s' : State} {t : Tid} (hi : Inv s) (h : step s t = some s') : s'.sh.endErr = s.sh.endErr := by
+  obtain ⟨it, sh', it', hit, hst, rfl⟩ := step_eq h
+  exact (stepIter_sinv hst hi.sinv (hi.linv t it hit)).2.err_eq
+
+theorem runThread_endErr (t : Tid) : ∀ (fuel : Nat) (s : State), Inv s → (runThread s t fuel).sh.endErr = s.sh.endErr := by
+  intro fuel
+  induction fuel with
+  | zero => intro s _; rfl
+  | succ fuel ih =>
+    intro s hi
+    unfold runThread
+    cases hst : step s t with
+    | none => rfl
+    | some s1 => exact (ih s1 (inv_step' hi hst)).trans (step_endErr hi hst)
+
+theorem nextVal_endErr (t : Tid) : ∀ (fuel : Nat) (s : State), Inv s →
+    (nextVal s t fuel).1.sh.endErr = s.sh.endErr ∧ Inv (nextVal s t fuel).1 := by
+  intro fuel
+  induction fuel with
+  | zero => intro s hi; exact ⟨rfl, hi⟩
+  | succ fuel ih =>
+    intro s hi
+    unfold nextVal
+    cases hst : step s t with
+    | none => exact ⟨rfl, hi⟩
+    | some s1 =>
+      simp only []
+      have hi1 := inv_step' hi hst
+      split
+      · exact ⟨step_endErr hi hst, hi1⟩
+      · exact ⟨((ih s1 hi1).1).trans (step_endErr hi hst), (ih s1 hi1).2⟩
+
+theorem takeVals_endErr (t : Tid) : ∀ (k : Nat) (s : State) (acc : List Int), Inv s →
+    (takeVals s t k acc).1.sh.endErr = s.sh.endErr := by
+  intro k
+  induction k with
+  | zero => intro s acc _; rfl
+  | succ k ih =>
+    intro s acc hi
+    unfold takeVals
+    have h1 := nextVal_endErr t (threadFuel s.sh) s hi
+    cases hnv : nextVal s t (threadFuel s.sh) with
+    | mk s1 v =>
+      rw [hnv] at h1
+      cases v with
+      | some x => simp only []; exact (ih s1 _ h1.2).trans h1.1
+      | none => simp only []; exact h1.1
+
+theorem runCreate_endErr (t : Tid) : ∀ (fuel : Nat) (s : State), Inv s → (runCreate s t fuel).sh.endErr = s.sh.endErr := by
+  intro fuel
+  induction fuel with
+  | zero => intro s _; rfl
+  | succ fuel ih =>
+    intro s hi
+    unfold runCreate
+    split
+    · rfl
+    · split
+      · cases hst : step s t with
+        | none => rfl
+        | some s1 => exact (ih s1 (inv_step' hi hst)).trans (step_endErr hi hst)
+      · rfl
 
 theorem getElem?_append_new {α} (l : List α) (a : α) : (l ++ [a])[l.length]? = some a := by
   simp
 
-/-- a query method on a cached set object at rest returns the list-semantics answer on the
-    sequence of the current generator, and leaves the object at rest -/
-theorem runQuery_spec {s : State} (hi : Inv s) (hp : Parked s) (hsorted : Sorted s.sh.src) (q : Query)
+/-- a query method on a cached object at rest — whatever way its generator ends — returns what the uncached
+    object gives (`specE`: the list-semantics answer on the sequence of the current generator, or the generator's
+    own exception when the query needs one value more than there is), and leaves the object at rest -/
+theorem runQuery_specE {s : State} (hi : Inv s) (hp : ParkedAll s) (hsorted : Sorted s.sh.src) (q : Query)
     (hsmall : fits q s.sh.src) :
-    (runQuery s q).2 = some (spec q s.sh.src) ∧ Inv (runQuery s q).1 ∧ Parked (runQuery s q).1 ∧
+    (runQuery s q).2 = some (specE q s.sh.src s.sh.endErr) ∧ Inv (runQuery s q).1 ∧ ParkedAll (runQuery s q).1 ∧
+    (runQuery s q).1.sh.endErr = s.sh.endErr ∧
     (runQuery s q).1.sh.src = s.sh.src ∧
     (∀ t', t' < s.its.length → (runQuery s q).1.its[t']? = s.its[t']?) ∧
     (runQuery s q).1.its.length = s.its.length + 1 := by
@@ -83,13 +153,15 @@ theorem runQuery_spec {s : State} (hi : Inv s) (hp : Parked s) (hsorted : Sorted
   obtain ⟨_, hl⟩ := hl
   rw [hd] at hl
   simp only [] at hl
-  refine ⟨?_, hs'.inv, ?_, hsrc, ?_, ?_⟩
+  have herr : (runThread s0 s.its.length (threadFuel s.sh)).sh.endErr = s.sh.endErr :=
+    runThread_endErr _ _ s0 hi0
+  refine ⟨?_, hs'.inv, ?_, herr, hsrc, ?_, ?_⟩
   · show (match (runThread s0 s.its.length (threadFuel s.sh)).its[s.its.length]? with
           | some it => it.res | none => none) = _
     rw [hit']
     simp only []
     have := hl.2.2 (by rw [hsrc]; exact hsorted) (by rw [hq, hsrc]; exact hsmall)
-    rw [this, hq, hsrc]
+    rw [this, hq, hsrc, herr]
   · intro t' it2 h2
     by_cases e : t' = s.its.length
     · subst e
@@ -101,6 +173,31 @@ theorem runQuery_spec {s : State} (hi : Inv s) (hp : Parked s) (hsorted : Sorted
     show (s.its ++ [({ q := q } : Iter)])[t']? = _
     rw [List.getElem?_append_left hlt]
   · rw [hlen]; show (s.its ++ [({ q := q } : Iter)]).length = _; simp
+
+/-- … over a generator that ends by StopIteration: the list-semantics answer -/
+theorem runQuery_spec {s : State} (hi : Inv s) (hp : Parked s) (hsorted : Sorted s.sh.src) (q : Query)
+    (hsmall : fits q s.sh.src) :
+    (runQuery s q).2 = some (spec q s.sh.src) ∧ Inv (runQuery s q).1 ∧ Parked (runQuery s q).1 ∧
+    (runQuery s q).1.sh.src = s.sh.src ∧
+    (∀ t', t' < s.its.length → (runQuery s q).1.its[t']? = s.its[t']?) ∧
+    (runQuery s q).1.its.length = s.its.length + 1 := by
+  obtain ⟨r1, r2, r3, r4, r5, r6, r7⟩ := runQuery_specE hi hp.1 hsorted q hsmall
+  rw [hp.2] at r1 r4
+  exact ⟨r1, r2, ⟨r3, r4⟩, r5, r6, r7⟩
+
+/-- **a history of calls on one cached object** — whatever way its generator ends — gives, call by call, what the
+    uncached object gives -/
+theorem runQueries_specE : ∀ (qs : List Query) (s : State), Inv s → ParkedAll s → Sorted s.sh.src →
+    (∀ q ∈ qs, fits q s.sh.src) → runQueries s qs = qs.map (fun q => some (specE q s.sh.src s.sh.endErr)) := by
+  intro qs
+  induction qs with
+  | nil => intro s _ _ _ _; rfl
+  | cons q qs ih =>
+    intro s hi hp hsorted hfit
+    obtain ⟨r1, r2, r3, r4, r5, _, _⟩ := runQuery_specE hi hp hsorted q (hfit q (by simp))
+    unfold runQueries
+    rw [List.map_cons, r1, ih (runQuery s q).1 r2 r3 (by rw [r5]; exact hsorted)
+      (fun q' hq' => by rw [r5]; exact hfit q' (by simp [hq'])), r4, r5]
 
 /-! ### `next()` on a kept iterator -/
 
